@@ -186,6 +186,8 @@ def features(t, v, out=None):
     if is_scalar(t):
         if isinstance(v, dict) and v.get("aware"):
             out.add("aware-timestamp" if v["off"] else "aware-timestamp-utc")
+        if k == "decimal" and isinstance(v, list) and v[0] in (-2147483648, 2147483647):
+            out.add("decimal-scale-int32-limit")
         w = v[1] if k == "decimal" and isinstance(v, list) and len(v) == 2 else v
         if isinstance(w, dict) and "mag" in w:
             out.add("wide-integer")
@@ -270,7 +272,7 @@ def py_scalar(drv, k, x, variant):
             return datetime.date(1970, 1, 1) + datetime.timedelta(days=d)
         return drv.util.Date(d)
     if k == "decimal":
-        scale, u = x[0], number(x[1])
+        scale, u = number(x[0]), number(x[1])          # exponent = -scale, exact (scale -2^31 <-> exponent +2^31)
         return decimal.Decimal((1 if u < 0 else 0, tuple(int(c) for c in str(abs(u))), -scale))
     if k == "duration":
         return drv.util.Duration(x[0], x[1], x[2])
@@ -469,7 +471,7 @@ def judge_encode(drv, st):
                 b = T.to_binary(py_value(drv, t, st["val"], variant), pv)
             except Exception:
                 continue
-            inner = sorted(scalars_of(t) & {"tinyint", "smallint", "int", "date", "bigint", "counter"})
+            inner = sorted(scalars_of(t) & {"tinyint", "smallint", "int", "date", "bigint", "counter", "decimal"})
             out.append(("range:%s:not-raised" % "/".join(inner),
                         "out-of-range value encoded instead of refused", {"variant": variant, "real": b.hex()}))
             break
